@@ -274,20 +274,26 @@ def execute(case):
             mi = st["m"] % len(members)
             via = st.get("via", "members")
             ar = ars[ai]
-            if via in ("getmember", "getitem"):
-                mi = last[names[mi]]
-                h = ar.getmember(names[mi]) if via == "getmember" else ar[names[mi]]
-            elif via == "iter":
-                h = list(ar)[mi]
-            elif via == "iter_partial":
-                # an iteration abandoned as soon as the wanted member was reached
-                it = iter(ar)
-                h = None
-                for _ in range(mi + 1):
-                    h = next(it)
-                del it
-            else:
-                h = ar.getmembers()[mi]
+            try:
+                if via in ("getmember", "getitem"):
+                    mi = last[names[mi]]
+                    h = ar.getmember(names[mi]) if via == "getmember" else ar[names[mi]]
+                elif via == "iter":
+                    h = list(ar)[mi]
+                elif via == "iter_partial":
+                    # an iteration abandoned as soon as the wanted member was reached
+                    it = iter(ar)
+                    h = None
+                    for _ in range(mi + 1):
+                        h = next(it)
+                    del it
+                else:
+                    h = ar.getmembers()[mi]
+            except (IndexError, KeyError, StopIteration) as e:
+                raise Violation("lookup-not-last-of-name" if via in ("getmember", "getitem")
+                                else "listing-differs", via,
+                                {"step": si, "archive": ai, "member": mi, "name": names[mi],
+                                 "error": repr(e), "members_expected": len(names)})
             if h.name != names[mi] or h.size != len(datas[mi]):
                 raise Violation("lookup-not-last-of-name" if via in ("getmember", "getitem")
                                 else "listing-differs", via,
@@ -374,7 +380,11 @@ def execute(case):
                 check_listing(ai, ar)
         # ---- end of run: every touched handle still yields exactly its bytes
         for (ai, mi) in sorted(models):
-            h = ars[ai].getmembers()[mi]
+            got_members = ars[ai].getmembers()
+            if len(got_members) != len(members):
+                raise Violation("listing-differs", "getmembers",
+                                {"archive": ai, "got": len(got_members), "want": len(members)})
+            h = got_members[mi]
             h.seek(0)
             got = _call(h.read)
             if got != ("ok", datas[mi]):
